@@ -334,6 +334,10 @@ fn pie_main(args: &[String]) {
       if let Err(f) = run_violation(&prog, &h, expect, prop, ob) { emit(&f, format!("pie-case --violation {}", ob), format!("program {:?} history {:?}", prog, h)); found += 1; }
     }
   }
+  if only_index.is_none() || args.iter().any(|a| a == "--twin-resources") {
+    ran += 1;
+    if let Err(f) = twin_resources() { emit(&f, "pie-case --twin-resources --index 4000000000".to_string(), "two resource types with identical fields, hash and debug text".to_string()); found += 1; }
+  }
   if only_index.is_none() || gets("--determinism").is_some() {
     for n in 3..=8usize {
       if let Some(v) = gets("--determinism") { if v != n.to_string() { continue; } }
